@@ -58,7 +58,14 @@ func condEdges(v ssa.Value) (whenTrue, whenFalse []edgeKey) {
 // it on the edge where the guard's boolean result equals `want`. `assume` blocks edges that are outside
 // the scenario analysed (e.g. "no allow-list given").
 func mustPassGuard(fn *ssa.Function, target func(ssa.Instruction) bool, guard func(ssa.Instruction) bool, guardVal func(ssa.Instruction) ssa.Value, want bool, assume map[edgeKey]bool) (bool, []ssa.Instruction) {
-	if found, wit := (pathQuery{fn: fn, target: target, avoid: guard, blocked: assume}).find(entryPos(fn)); found {
+	return mustPassGuard2(fn, target, guard, guardVal, want, assume, nil)
+}
+
+// mustPassGuard2: entryOnly edges are blocked only for the "reaches the target without ever evaluating the
+// guard" query (e.g. the zero-iteration exit of a loop that is known to run at least once); they stay open
+// for the "left the guard on the wrong edge" queries, where a later loop exit is a real path.
+func mustPassGuard2(fn *ssa.Function, target func(ssa.Instruction) bool, guard func(ssa.Instruction) bool, guardVal func(ssa.Instruction) ssa.Value, want bool, assume, entryOnly map[edgeKey]bool) (bool, []ssa.Instruction) {
+	if found, wit := (pathQuery{fn: fn, target: target, avoid: guard, blocked: mergeEdges(assume, entryOnly)}).find(entryPos(fn)); found {
 		return false, wit
 	}
 	for _, g := range findInstrs(fn, guard) {
